@@ -74,7 +74,7 @@ def verify_outcomes(ctx, sym, mod, fn):
                           msg='invalid syntax', end_lineno=None, end_offset=None, text=None)
 
                 def parse(src, filename='<unknown>', *a, **k):
-                    rec.events.append(('ast.parse', (src, filename), k))
+                    rec.events.append(('ast.parse', (src, filename) + tuple(a), k))
                     if src == '':
                         if text == '' and not [e for e in rec.named('ast.parse') if e[1][0] == ''][1:]:
                             # the submission itself is the empty text: CPython accepts it
@@ -164,6 +164,18 @@ def r3_iff(ctx, sym, mod, fn, g, site):
                       ob['filename'], [e[1] for e in rec.named('ast.parse')]),
                   "text with leading/trailing whitespace parses differently from CPython; with the wrong file name the "
                   "line offsets - keyed by the real file name - are not found")
+        # ... in CPython's default mode: any other mode/feature switch changes which texts are accepted
+        for ev in parses:
+            extra_pos = list(ev[1][2:])
+            opts = {k: v for k, v in ev[2].items() if k != 'filename'}
+            plain = (not extra_pos or extra_pos == ['exec']) and all(
+                (k == 'mode' and v == 'exec') or (k == 'type_comments' and v is False) or
+                (k == 'feature_version' and v is None) or (k == 'optimize' and v in (-1, 0)) for k, v in opts.items())
+            ctx.check(plain, 'R4', 'verify:parses-in-default-mode' + tag, mod, fn,
+                      "ast.parse is called with %s%s: the text is judged by another grammar than CPython applies to a "
+                      "program" % (extra_pos or '', opts or ''),
+                      "`print(total)  # type: prints the total` is a syntax error under type_comments=True although "
+                      "CPython runs the program")
         if not rejected:
             ctx.check(store['ast'] is ob['tree'], 'R4', 'verify:stores-parse-result' + tag, mod, fn,
                       "report['ast'] on the success path is %r, not the value returned by ast.parse(code)" % (
@@ -172,6 +184,25 @@ def r3_iff(ctx, sym, mod, fn, g, site):
                   "blank_source constructed %d time(s) for the text %r" % (len(rec.named('blank_source')), sc['text']),
                   "an empty submission is not reported as blank (or a non-empty one is)")
     ctx.floor('R3', 'verify scenarios', n, 20)
+
+
+def r7b_line_views_agree(ctx, sym):
+    """Submission.get_lines executed abstractly: it is the table that syntax_error / the sandbox index by CPython's
+    line and bound-check against the fallback `code.split("\\n")` they build for files the submission does not know;
+    both must split alike, or the bounds check of one list guards the lookup in the other."""
+    from .. import symexec
+    smod = ctx.repo.module('pedal.core.submission')
+    fn = smod.func('Submission.get_lines')
+    ctx.analysed_function(smod, fn)
+    for text in ('a = 1\nb = (\n', 'a = 1\rb = (\r', 'a = 1\r\nb = 2', 'x\x0cy\nz', 'x\x0by', 'x\u2028y\n', '', 'one'):
+        me = symexec.self_obj(smod, 'Submission', main_code=text, files={'answer.py': text}, _lines_cache={})
+        got, raised = symexec.run(symexec.new_fd(sym, smod), fn, [], bound_self=me, what='Submission.get_lines')
+        want = text.split('\n')
+        ctx.check(raised is None and got == want, 'R7', 'Submission.get_lines[%r]' % text, smod, fn,
+                  "get_lines() of the text %r gives %r; the fallback tables built next to it (code.split('\\n')) give "
+                  "%r, and one list's length guards the lookup in the other" % (text, got, want),
+                  "set_source(code, filename='program.py') with lone-CR line endings and a syntax error past line 1: "
+                  "IndexError escapes verify()")
 
 
 def r7_line_indexing(ctx, sym):
@@ -350,6 +381,7 @@ def run(ctx):
     r3_iff(ctx, sym, mod, fn, g, site)
     r6_r2_line(ctx, sym)
     r7_line_indexing(ctx, sym)
+    r7b_line_views_agree(ctx, sym)
     ctx.assume("ast.parse(str) fails only with SyntaxError, ValueError, RecursionError or MemoryError (CPython docs "
                "and observed on 3.12); agreement of the reported line with CPython's for every corrupted text beyond "
                "'it is e.lineno plus the section offset' is not decided")
